@@ -22,7 +22,9 @@ import (
 	"strings"
 	"time"
 
+	"google.golang.org/grpc/codes"
 	"google.golang.org/grpc/metadata"
+	"google.golang.org/grpc/status"
 	"google.golang.org/protobuf/proto"
 	"google.golang.org/protobuf/types/known/timestamppb"
 
@@ -117,23 +119,32 @@ type dkgFacts struct {
 	epoch     uint32
 	genesis   time.Time
 	seed      []byte
+	timedOut  bool // hasTimedOut(record)
+	meLeaving bool // this node is in the record's Leaving list
+	meMember  bool // this node is in the record's Remaining or Joining list
 }
 
 func (e *env) facts(id string) dkgFacts {
 	switch id {
 	case "left":
-		return dkgFacts{uint32(dkg.Left), true, false, 2, e.t0, e.seed0}
+		return dkgFacts{uint32(dkg.Left), true, false, 2, e.t0, e.seed0, false, true, false}
 	case "leftnl":
-		return dkgFacts{uint32(dkg.Left), false, false, 2, e.t0, e.seed0}
+		return dkgFacts{uint32(dkg.Left), false, false, 2, e.t0, e.seed0, false, true, false}
 	case "prop":
-		return dkgFacts{uint32(dkg.Proposed), true, false, 1, e.t0, nil}
+		return dkgFacts{uint32(dkg.Proposed), true, false, 1, e.t0, nil, false, false, true}
+	case "propnl": // a proposed record that names no leader and lists this node as leaving (synthetic)
+		return dkgFacts{uint32(dkg.Proposed), false, false, 1, e.t0, nil, false, true, false}
+	case "joinnl": // a joined record without leader, this node joining (synthetic)
+		return dkgFacts{uint32(dkg.Joined), false, false, 1, e.t0, nil, false, false, true}
 	case "exec":
-		return dkgFacts{uint32(dkg.Executing), true, false, 1, e.t0, nil}
+		return dkgFacts{uint32(dkg.Executing), true, false, 1, e.t0, nil, false, false, true}
 	case "default":
+		// migrated from the group file: complete; Complete admits neither Left nor Executing nor
+		// Aborted, so the membership / timeout bits do not matter
 		c := e.chains["default"]
-		return dkgFacts{uint32(dkg.Complete), true, true, 1, time.Unix(c.Group.GenesisTime, 0), c.Group.GetGenesisSeed()}
+		return dkgFacts{uint32(dkg.Complete), true, true, 1, time.Unix(c.Group.GenesisTime, 0), c.Group.GetGenesisSeed(), true, false, true}
 	}
-	return dkgFacts{uint32(dkg.Fresh), false, false, 0, time.Unix(0, 0), nil}
+	return dkgFacts{uint32(dkg.Fresh), false, false, 0, time.Unix(0, 0), nil, true, false, false}
 }
 
 func (e *env) dkgStates() map[string]*dkg.DBState {
@@ -147,6 +158,8 @@ func (e *env) dkgStates() map[string]*dkg.DBState {
 		"left":   mk("left", dkg.Left, 2, e.leader, e.seed0, nil, []*pdkg.Participant{e.leader}, []*pdkg.Participant{e.me["left"]}),
 		"leftnl": mk("leftnl", dkg.Left, 2, nil, e.seed0, nil, []*pdkg.Participant{e.leader}, []*pdkg.Participant{e.me["leftnl"]}),
 		"prop":   mk("prop", dkg.Proposed, 1, e.leader, nil, []*pdkg.Participant{e.leader, e.me["prop"]}, nil, nil),
+		"propnl": mk("propnl", dkg.Proposed, 1, nil, nil, []*pdkg.Participant{e.leader}, nil, []*pdkg.Participant{e.me["propnl"]}),
+		"joinnl": mk("joinnl", dkg.Joined, 1, nil, nil, []*pdkg.Participant{e.leader, e.me["joinnl"]}, nil, nil),
 		"exec":   mk("exec", dkg.Executing, 1, e.leader, nil, []*pdkg.Participant{e.leader, e.me["exec"]}, nil, nil),
 	}
 }
@@ -169,7 +182,7 @@ func setup(seed int64, rep *emit.Report) (*env, error) {
 		core.WithControlPort(test.FreePort()), core.WithDBStorageEngine(chain.BoltDB))
 	// chains: "default" complete and running (period one hour, genesis in two seconds: round 1 is
 	// produced then, round 2 is far away); the others have a key pair only
-	ids := []string{"default", "alpha", "left", "leftnl", "prop", "exec"}
+	ids := []string{"default", "alpha", "left", "leftnl", "prop", "propnl", "joinnl", "exec"}
 	var dk []string
 	pairs := map[string]*key.Pair{}
 	for _, id := range ids {
@@ -540,7 +553,7 @@ func coqBool(b bool) string { return emit.Bool(b) }
 func (e *env) runDKG(tier string) {
 	ctx := context.Background()
 	targets := []int{0, 1}
-	idsFor := map[int][]string{0: {"alpha", "left", "leftnl", "prop", "default", "ghost"}, 1: {"alpha", "left", "leftnl", "prop", "exec", "ghost"}}
+	idsFor := map[int][]string{0: {"alpha", "left", "leftnl", "prop", "propnl", "joinnl", "default", "ghost"}, 1: {"alpha", "left", "leftnl", "prop", "propnl", "joinnl", "exec", "ghost"}}
 	execIDs := map[int][]string{0: {}, 1: {"exec"}}
 	type job struct {
 		target int
@@ -636,8 +649,13 @@ func (e *env) runDKG(tier string) {
 		if cls == clsPanic {
 			e.rep.Count("packet/panic-contained/" + j.g.name)
 		}
-		e.add(fmt.Sprintf("KPacket %d (mkG false %s false %s false) %s %d %s %s %s %d", j.target, coqMeta, coqVar,
-			coqBool(exists), f.status, coqBool(f.leaderSet), coqBool(f.fgSet), idList(e.in, execIDs[j.target]), cls), name+" -> "+clsName[cls])
+		e.add(fmt.Sprintf("KPacket %d (mkG false %s false %s false) %s %d %s %s %s %s %s %s %d", j.target, coqMeta, coqVar,
+			coqBool(exists), f.status, coqBool(f.leaderSet), coqBool(f.fgSet), coqBool(f.timedOut), coqBool(f.meLeaving), coqBool(f.meMember),
+			idList(e.in, execIDs[j.target]), cls), name+" -> "+clsName[cls])
+		// regression witnesses of repaired panics (fix 1b94cdfe, fix 4d77f863): refusals now
+		if cls == clsPanic && (j.g.name == "proposal-nil-leader" || j.g.name == "proposal-empty" || j.g.name == "proposal-reaches-final-group") {
+			e.rep.Fail("C14-repaired-panic-is-back", "a proposal shape that is refused since the fix panics again", name)
+		}
 		e.rep.Sample(name+" -> "+clsName[cls], 6)
 		// M
 		if cls == clsTimeout {
@@ -801,7 +819,7 @@ func (e *env) runRouted() {
 	metas := []*drand.Metadata{nil, {}, {BeaconID: "default"}, {BeaconID: "alpha"}, {BeaconID: "ghost"}, {ChainHash: h},
 		{ChainHash: unknown}, {ChainHash: []byte{1, 2, 3, 4, 5}}, {BeaconID: "alpha", ChainHash: h}, {BeaconID: "default", ChainHash: h},
 		{BeaconID: strings.Repeat("z", 1500)}, {ChainHash: make([]byte, 1500)}, {BeaconID: "alpha", ChainHash: unknown}}
-	all := []string{"default", "alpha", "left", "leftnl", "prop"}
+	all := []string{"default", "alpha", "left", "leftnl", "prop", "propnl", "joinnl"}
 	type ep struct {
 		name   string
 		serves []string
@@ -942,8 +960,16 @@ func (e *env) runLoopback() {
 	peer := dnet.CreatePeer(addr)
 	ctx, cancel := context.WithTimeout(context.Background(), 10*time.Second)
 	defer cancel()
-	send := func(name string, p *pdkg.GossipPacket, expectErr bool) {
-		cls := call(func() error { _, err := client.Packet(ctx, peer, p); return err })
+	send := func(name string, p *pdkg.GossipPacket, expectErr bool, panicExpected bool) {
+		var code codes.Code
+		cls := call(func() error { _, err := client.Packet(ctx, peer, p); code = status.Code(err); return err })
+		// grpcrecovery reports a recovered panic as codes.Internal; a refusal by the handler is codes.Unknown
+		if code == codes.Internal {
+			e.rep.Count("grpc/panic-contained")
+			if !panicExpected {
+				e.rep.Fail("C14-repaired-panic-is-back", "the handler panicked (contained) on a request that is refused since the fix", name)
+			}
+		}
 		e.rep.Evaluations++
 		e.rep.Count("grpc/" + clsName[cls])
 		if cls == clsTimeout || cls == clsPanic {
@@ -967,13 +993,15 @@ func (e *env) runLoopback() {
 		return &pdkg.GossipMetadata{BeaconID: id, Address: e.leader.Address, Signature: append([]byte{}, sig...)}
 	}
 	send("F2 witness: gossip packet carrying the Dkg variant", &pdkg.GossipPacket{Metadata: md("alpha"),
-		Packet: &pdkg.GossipPacket_Dkg{Dkg: &pdkg.DKGPacket{Dkg: &pdkg.Packet{Metadata: &drand.Metadata{BeaconID: "alpha"}}}}}, true)
-	send("proposal without leader on a fresh node", &pdkg.GossipPacket{Metadata: md("alpha"),
-		Packet: &pdkg.GossipPacket_Proposal{Proposal: &pdkg.ProposalTerms{BeaconID: "alpha"}}}, true)
-	send("Dkg variant without inner packet", &pdkg.GossipPacket{Metadata: md("alpha"), Packet: &pdkg.GossipPacket_Dkg{Dkg: &pdkg.DKGPacket{}}}, true)
-	send("F13b: reshare proposal on a Left state", &pdkg.GossipPacket{Metadata: md("left"),
-		Packet: &pdkg.GossipPacket_Proposal{Proposal: e.terms("left", nil)}}, true)
-	send("abort on a state without leader", &pdkg.GossipPacket{Metadata: md("leftnl"), Packet: &pdkg.GossipPacket_Abort{Abort: &pdkg.AbortDKG{}}}, true)
+		Packet: &pdkg.GossipPacket_Dkg{Dkg: &pdkg.DKGPacket{Dkg: &pdkg.Packet{Metadata: &drand.Metadata{BeaconID: "alpha"}}}}}, true, false)
+	send("proposal without leader on a fresh node (repaired)", &pdkg.GossipPacket{Metadata: md("alpha"),
+		Packet: &pdkg.GossipPacket_Proposal{Proposal: &pdkg.ProposalTerms{BeaconID: "alpha"}}}, true, false)
+	send("Dkg variant without inner packet", &pdkg.GossipPacket{Metadata: md("alpha"), Packet: &pdkg.GossipPacket_Dkg{Dkg: &pdkg.DKGPacket{}}}, true, true)
+	send("F13b (repaired): reshare proposal on a Left state", &pdkg.GossipPacket{Metadata: md("left"),
+		Packet: &pdkg.GossipPacket_Proposal{Proposal: e.terms("left", nil)}}, true, false)
+	send("abort on a state without leader", &pdkg.GossipPacket{Metadata: md("leftnl"), Packet: &pdkg.GossipPacket_Abort{Abort: &pdkg.AbortDKG{}}}, true, true)
+	send("execute signal on a proposed state without leader", &pdkg.GossipPacket{Metadata: md("propnl"),
+		Packet: &pdkg.GossipPacket_Execute{Execute: &pdkg.StartExecution{Time: timestamppb.Now()}}}, true, true)
 }
 
 // Run is the engine entry point.
@@ -999,7 +1027,7 @@ func Run(outDir string, seed int64, tier string) error {
 		e.dd.Stop(sctx)
 	}
 	cancel()
-	rep.Rule = "every oneof variant of GossipPacket / DKGPacket bundles with nil, empty, short and oversize fields x DKG record states {fresh, proposed, executing, left, left without leader, complete, unknown id} on DrandDaemon.Packet and dkg.Process.Packet (seeded order, probes after every call), BroadcastDKG shapes, partial beacons (rounds x lengths x indices), routed endpoints x metadata kinds (nil, empty, ids, hashes, oversize), HTTP hash / round parameters, loopback gRPC witnesses; distinct = distinct (endpoint, state, shape); non-trivial = the request carries at least one field"
+	rep.Rule = "every oneof variant of GossipPacket / DKGPacket bundles with nil, empty, short and oversize fields x DKG record states {fresh, proposed, executing, left, left / proposed / joined without leader, complete, unknown id} on DrandDaemon.Packet and dkg.Process.Packet (seeded order, probes after every call), BroadcastDKG shapes, partial beacons (rounds x lengths x indices), routed endpoints x metadata kinds (nil, empty, ids, hashes, oversize), HTTP hash / round parameters, loopback gRPC witnesses; distinct = distinct (endpoint, state, shape); non-trivial = the request carries at least one field"
 	req := append([]string{"From DV Require Import Model.Routing Model.Robust Corr.RobustCorr.", "Open Scope Z_scope."}, e.in.Defs()...)
 	if err := rep.Shard(outDir, "cases_robust", req, "kcase", "mismatches", e.cases, e.descr, 250); err != nil {
 		return err
